@@ -302,5 +302,8 @@ func runC17(c *Ctx) {
 	R.Require("E3.classify", 16+4, "")
 	R.Require("E3.cover", 16, "")
 	R.Require("E1.slice", 8, "")
-	R.Explain = "Packet.Decode is interpreted abstractly once for arbitrary data and an arbitrary (reused) Packet. For every return state the symbolic value of each header field, the body window and the remainder are extracted and compared with the table written from JT/T 1078 table 19, separately for each data type the path condition admits (0..15); error returns are checked against the length/marker conditions under which the standard allows them; plus E1 bounds and E2 history independence. All obligations are decided for all inputs at once."
+	// the SIM is compared above as Bcd2Dec(data[8:14]) with the helper kept symbolic: the helper's own contract
+	c.bcd2decRule()
+	R.Require("E3.digits", 2, "")
+	R.Explain = "Packet.Decode is interpreted abstractly once for arbitrary data and an arbitrary (reused) Packet. For every return state the symbolic value of each header field, the body window and the remainder are extracted and compared with the table written from JT/T 1078 table 19, separately for each data type the path condition admits (0..15); error returns are checked against the length/marker conditions under which the standard allows them; plus E1 bounds and E2 history independence; the digit helper behind the SIM field is shown to drop nothing but leading zeros. All obligations are decided for all inputs at once."
 }
